@@ -59,7 +59,7 @@ Section Trees.
     accumulate nonstr (PDir n d ents) =
     if is_empty_kust d ents then Err else
     do m0 <- acc_list (accumulate nonstr) ents [];
-    do m1 <- run_generators d m0;
+    do m1 <- run_generators nonstr d m0;
     run_transformers nonstr d m1.
   Proof. reflexivity. Qed.
 
@@ -444,7 +444,7 @@ Qed.
 Section Wrap.
   Variable nonstr : string -> bool.
 
-  Lemma run_generators_none m : run_generators no_dirs m = Ok m.
+  Lemma run_generators_none m : run_generators nonstr no_dirs m = Ok m.
   Proof.
     unfold run_generators. generalize gen_generator_order. intros ks. revert m.
     induction ks as [|k t IH]; intros m; cbn [run_generator_kinds]; [reflexivity|].
@@ -488,7 +488,7 @@ Section Wrap.
   Proof.
     rewrite accumulate_dir. destruct (is_empty_kust d ents); [discriminate|].
     destruct (acc_list (accumulate nonstr) ents []) as [m0| | |]; cbn [bind]; try discriminate.
-    destruct (run_generators d m0) as [m1| | |]; cbn [bind]; try discriminate.
+    destruct (run_generators nonstr d m0) as [m1| | |]; cbn [bind]; try discriminate.
     unfold run_transformers.
     destruct (Labels.label_transformers LabelsDefaults.default_tc (label_dirs d)); cbn [bind]; try discriminate.
     apply run_order_dropped.
@@ -656,16 +656,16 @@ Section Respell.
     destruct (Labels.label_transformers LabelsDefaults.default_tc (label_dirs d)); reflexivity.
   Qed.
 
-  Lemma run_generators_respell d m : run_generators (respell d) m = run_generators d m.
+  Lemma run_generators_respell d m : run_generators nonstr (respell d) m = run_generators nonstr d m.
   Proof.
     destruct (pd_common_labels d) as [|cl0 clt] eqn:E; unfold respell; rewrite E; [reflexivity|].
     unfold run_generators. generalize gen_generator_order. intros ks. revert m.
     induction ks as [|k t IH]; intros m; [reflexivity|].
     cbn [run_generator_kinds pd_cmgens pd_secgens].
     destruct (String.eqb k "ConfigMapGenerator").
-    - destruct (run_gens false (pd_cmgens d) m); cbn [bind]; auto.
+    - destruct (run_gens nonstr false (pd_cmgens d) m); cbn [bind]; auto.
     - destruct (String.eqb k "SecretGenerator").
-      + destruct (run_gens true (pd_secgens d) m); cbn [bind]; auto.
+      + destruct (run_gens nonstr true (pd_secgens d) m); cbn [bind]; auto.
       + cbn [bind]. auto.
   Qed.
 
@@ -687,7 +687,7 @@ Section Respell.
     rewrite acc_list_map. rewrite (acc_list_ext _ (accumulate nonstr) ents) by exact IH.
     destruct (acc_list (accumulate nonstr) ents []) as [m0| | |]; cbn [bind]; try reflexivity.
     destruct (which n); [|reflexivity].
-    rewrite run_generators_respell. destruct (run_generators d m0); cbn [bind]; try reflexivity.
+    rewrite run_generators_respell. destruct (run_generators nonstr d m0); cbn [bind]; try reflexivity.
     apply run_transformers_respell.
   Qed.
 
